@@ -171,11 +171,11 @@ def gen_constraint(ch: Choices, model: dict, alg: str, opts: dict) -> Optional[l
             return None
         return [pick_vars(ch, model, n, alias), alg, []]
     if alg == "lexicographic_leq":
-        half = arity(1, 2)
-        if half is None or (not alias and 2 * half > nv):
-            half = 1
-            if not alias and nv < 2:
-                return None
+        half = 1 + ch.choose(3, "half")
+        while half > 1 and not alias and 2 * half > nv:
+            half -= 1
+        if not alias and nv < 2:
+            return None
         return [pick_vars(ch, model, 2 * half, alias), alg, []]
     if alg in ("max_eq", "max_leq", "min_eq", "min_geq"):
         n = arity(2, 4)
